@@ -11,6 +11,7 @@ mod c05;
 mod c06;
 mod c07;
 mod c08;
+mod c09;
 mod c13;
 mod c18;
 mod c19;
@@ -76,6 +77,7 @@ fn main() {
         "C06" => c06::run(&run),
         "C07" => c07::run(&run),
         "C08" => c08::run(&run),
+        "C09" => c09::run(&run),
         "C11" => wf::run_c11(&run),
         "C18" => c18::run(&run),
         "C20" => c20::run(&run),
